@@ -370,15 +370,18 @@ func (d *DataChannel) handleOpen(dc *datachannel.DataChannel, isRemote, isAlread
 	}
 
 	d.mu.Lock()
-	defer d.mu.Unlock()
-
-	if d.isGracefulClosed {
-		return
-	}
-
-	if !d.api.settingEngine.detach.DataChannels {
+	closedWhileOpening := d.isGracefulClosed
+	if !closedWhileOpening && !d.api.settingEngine.detach.DataChannels {
 		d.readLoopActive = make(chan struct{})
 		go d.readLoop()
+	}
+	d.mu.Unlock()
+
+	if closedWhileOpening {
+		// Close was called while the channel was being opened and has closed the stream:
+		// no read loop will run for this channel, so this is where it becomes closed.
+		d.setReadyState(DataChannelStateClosed)
+		d.onClose()
 	}
 }
 
